@@ -157,7 +157,7 @@ def plant_select_from_repeat(g, form):
         inner.append({"k": "g", "c": {"name": "kg" + u, "label": "G"}, "ch": [q(type="integer", name=w, label="W")]})
     items = {"k": "r", "c": {"name": rep, "label": "R"}, "ch": inner}
     variant = g.pick(["top", "top", "sibling-repeat", "same-repeat"])
-    limit = rep + "_limit"          # /root/kid12_limit starts with the text of /root/kid12
+    limit = rep + g.pick(["_limit", "-limit", ".max", "2"])          # /root/kid12_limit starts with the text of /root/kid12
     flt = "${%s} < ${%s}" % (age, limit) if g.p("_", 0.7) else "${%s} < 99" % age
     if in_group and g.p("_", 0.6):
         flt += " and ${%s} > 1" % w
